@@ -297,12 +297,21 @@ class SymInt:
         return SymInt(~self.t)
 
     def __and__(self, o):
-        return self._bin(o, lambda a, b: a & b)
+        r = self._bin(o, lambda a, b: a & b)
+        if type(o) is int and 0 <= o <= _MAX and r is not NotImplemented:
+            declare_range(r.t, 0, o)       # x & c with c >= 0 lies in [0, c] (two's complement)
+        return r
 
     __rand__ = __and__
 
     def __or__(self, o):
-        return self._bin(o, lambda a, b: a | b)
+        r = self._bin(o, lambda a, b: a | b)
+        if r is not NotImplemented:
+            (l1, h1), (l2, h2) = _interval(self.lin), _interval(lin_of(o))
+            if l1 is not None and l2 is not None and l1 >= 0 and l2 >= 0:
+                # both operands non-negative: max(x, y) <= x | y < 2^max(bit lengths)
+                declare_range(r.t, max(l1, l2), (1 << max(h1.bit_length(), h2.bit_length())) - 1)
+        return r
 
     __ror__ = __or__
 
@@ -328,6 +337,8 @@ class SymInt:
         lo, hi = _interval(self.lin)
         if lo is None or (lo << k) < _MIN or (hi << k) > _MAX:
             ctx().side.append((r >> k) == self.t)  # arithmetic shift back: no bits lost
+        else:
+            declare_range(r, lo << k, hi << k)      # no bits lost: the interval is shifted along
         return SymInt(r)
 
     def __rlshift__(self, o):
@@ -353,8 +364,14 @@ class SymInt:
             return NotImplemented
         a, b, q, rem = r
         z = z3.BitVecVal(0, W)
-        adjust = z3.And(rem != z, z3.Xor(a < z, b < z))     # Python floors: one less than truncation
-        res = z3.If(adjust, q - z3.BitVecVal(1, W), q)
+        num, den = (o, self) if swap else (self, o)
+        if _implied_sign(num, "ge") and _implied_sign(den, "gt"):
+            # non-negative dividend, positive divisor on every model of the path: floor == truncation
+            # (keeps nested quotients free of if-then-else over 80-bit division circuits)
+            res = q
+        else:
+            adjust = z3.And(rem != z, z3.Xor(a < z, b < z))     # Python floors: one less than truncation
+            res = z3.If(adjust, q - z3.BitVecVal(1, W), q)
         _declare_quotient_range(res, o if swap else self)
         return SymInt(res)
 
@@ -471,6 +488,18 @@ def cdiff(a, b):
         return a - b
     d = _lin_add(lin_of(a), lin_of(b), -1)
     return d[0] if not d[1] else None
+
+
+def _implied_sign(v, op):
+    """is `v >= 0` (op "ge") / `v > 0` (op "gt") implied by the path condition?  Decided from the declared
+    input ranges when possible, else by one solver query (unsat of PC and not cond)."""
+    if isinstance(v, int):
+        return v >= 0 if op == "ge" else v > 0
+    r = cmp_known(v, 0, op)
+    if r is not None:
+        return r
+    z = z3.BitVecVal(0, W)
+    return ctx().implied(bv(v) >= z if op == "ge" else bv(v) > z)
 
 
 def _declare_quotient_range(term, dividend):
@@ -700,6 +729,16 @@ class PathCtx:
         self.solver.add(cond if d else z3.Not(cond))
         self.model = m_t if d else m_f
         return d
+
+    def implied(self, cond):
+        """True iff cond holds on every model of the path condition (no fork, no effect on the path)"""
+        cond = z3.simplify(cond)
+        if z3.is_true(cond):
+            return True
+        if z3.is_false(cond) or self._mval(cond) is False:
+            return False
+        r, _ = self._check(z3.Not(cond))
+        return r == z3.unsat
 
     def concretize(self, x, why):
         """The unique value of x under the path condition, or Unsupported."""
